@@ -269,6 +269,38 @@ func c01Families(tier string) []explore.Family {
 		c01Check(r, "huge-range", src, map[string]any{"l": []any{1, 2}}, func() any { return map[string]any{"template": src} })
 	}})
 
+	// 2c. very deep values: slices in slices, maps in maps, pointers to pointers, Drops yielding Drops, nested
+	// 100..30000 levels (beyond any plausible recursion guard), through everything that walks a value
+	deepShapes := []string{"slices", "maps", "pointers", "drops", "slices-and-maps"}
+	deepDepths := []int{100, 1000, 10001, 30000}
+	deepBuild := func(shape string, d int) any {
+		var v any = 1
+		for k := 0; k < d; k++ {
+			switch {
+			case shape == "slices" || (shape == "slices-and-maps" && k%2 == 0):
+				v = []any{v}
+			case shape == "maps" || shape == "slices-and-maps":
+				v = map[string]any{"k": v}
+			case shape == "pointers":
+				w := v
+				v = &w
+			default:
+				v = univ.Drop{V: v}
+			}
+		}
+		return v
+	}
+	deepForms := []string{"{{ a | size }}", "{% if a == b %}E{% else %}N{% endif %}", "{% if a contains b %}C{% endif %}", "{% case a %}{% when b %}W{% else %}E{% endcase %}", "{{ a | json | size }}",
+		"{{ a | join | size }}", "{{ a | first | size }}", "{{ a | uniq | size }}", "{{ a | sort | size }}", "{% for x in a %}{{ x | size }}{% endfor %}", "{{ a | compact | size }}{{ a | reverse | size }}{{ a | concat: b | size }}",
+		"{% assign c = a %}{% if c == b %}E{% endif %}", "{{ a | default: 'd' | size }}", "{{ a | append: '' | size }}", "{% if a %}T{% endif %}{% unless a %}U{% endunless %}", "{{ a.k.k.k | size }}{{ a[0][0] | size }}", "{% if a < b %}L{% endif %}{% if a != b %}D{% endif %}",
+		"{% capture c %}{{ a }}{% endcapture %}{{ c | size }}", "{{ a | map: 'k' | size }}", "{{ a | sort: 'k' | size }}", "{% if l contains a %}C{% endif %}{{ l | uniq | size }}{{ l | sort | size }}", "{% tablerow x in a %}{{ x | size }}{% endtablerow %}"}
+	fams = append(fams, explore.Family{Name: "very-deep-values", Count: int64(len(deepShapes) * len(deepDepths) * len(deepForms)), Run: func(i int64, r *explore.Rec) {
+		rx := radix{i}
+		f, d, sh := deepForms[rx.next(len(deepForms))], deepDepths[rx.next(len(deepDepths))], deepShapes[rx.next(len(deepShapes))]
+		a, b := deepBuild(sh, d), deepBuild(sh, d)
+		c01Check(r, "deep-value", f, map[string]any{"a": a, "b": b, "l": []any{a, b}}, func() any { return map[string]any{"template": f, "a and b": fmt.Sprintf("%s nested %d levels around 1", sh, d)} })
+	}})
+
 	// 3. syntax space
 	synBind := func() map[string]any {
 		return map[string]any{"x": []any{1, "a", map[string]any{"x": 2}}, "if": 1, "in": "s"}
